@@ -58,7 +58,7 @@ func (c *c18) Assumptions() []string {
 }
 
 func (c *c18) ProbeNames() []string {
-	return []string{"json_stdout_compared", "formatted_json_stdout_compared", "json_file_compared", "formatted_json_file_compared", "stale_json_file_longer_than_document", "invalid_invocation_checked", "compile_error_invocation_checked", "glob_selected_several_files", "absolute_glob", "src_file_program", "no_output_flag", "mode_default_new_replace", "mode_overwrite_replace", "mode_nothing_replace", "no_file_matches_pattern", "invocation_after_earlier_write"}
+	return []string{"json_stdout_compared", "formatted_json_stdout_compared", "json_file_compared", "formatted_json_file_compared", "stale_json_file_longer_than_document", "invalid_invocation_checked", "compile_error_invocation_checked", "glob_selected_several_files", "absolute_glob", "src_file_program", "no_output_flag", "mode_default_new_replace", "mode_overwrite_replace", "mode_nothing_replace", "no_file_matches_pattern", "invocation_after_earlier_write", "multi_command_program", "document_order_compared"}
 }
 
 func (c *c18) SweepPrefix(string, uint64) []uint64 { return nil }
@@ -81,6 +81,12 @@ func (c *c18) Init(env *Env) error {
 		&c06prog{Cmds: []string{"find all at least 1 (digit = d) named ds"}},
 		&c06prog{Cmds: []string{"find top 2 'a'"}},
 		&c06prog{Cmds: []string{"find all 'qqqq'"}},
+		// several commands: results are command-major over the file list; a replace command only last,
+		// so that earlier commands see the original content in every mode
+		&c06prog{Cmds: []string{"find all 'an'", "find all digit"}},
+		&c06prog{Cmds: []string{"find top 1 'a'", "find all 'b'", "find all 'x'"}},
+		&c06prog{Cmds: []string{"find all letter", "replace all 'a' with 'xyz'"}},
+		&c06prog{Defs: "set p to pattern 'a' or 'b'\n", Cmds: []string{"find all p", "replace all p p with 'P'"}},
 	)
 	return nil
 }
@@ -321,7 +327,7 @@ func (c *c18) Run(ctx *RunCtx) *RunResult {
 			argv = append(argv, "-json", "-formatted-json")
 			why = "invalid: both -json and -formatted-json"
 		case 4:
-			argv = append(argv, "-replace-mode", "SOMETIMES")
+			argv = append(argv, "-replace-mode", []string{"SOMETIMES", "CONFIRM", "new", "Overwrite", "0"}[t.Draw(5)])
 			why = "invalid: unknown replace mode"
 		case 5: // no -files
 			var a2 []string
@@ -364,6 +370,7 @@ func (c *c18) Run(ctx *RunCtx) *RunResult {
 		}
 		valid := invalidKind == 0 && !compileFails
 		var expDoc map[string][]any
+		var expList any
 		nExp := 0
 		isReplace := false
 		expModel := map[string][]byte{}
@@ -381,7 +388,10 @@ func (c *c18) Run(ctx *RunCtx) *RunResult {
 			}
 		}
 		if valid && len(expFiles) > 0 {
-			isReplace = prog.isReplace(0)
+			isReplace = prog.isReplace(len(prog.Cmds) - 1)
+			if len(prog.Cmds) > 1 {
+				ctx.Count("multi_command_program", 1)
+			}
 			absFiles := make([]string, len(expFiles))
 			for i, f := range expFiles {
 				absFiles[i] = filepath.Join(root, f)
@@ -404,11 +414,14 @@ func (c *c18) Run(ctx *RunCtx) *RunResult {
 					var doc any
 					json.Unmarshal(b, &doc)
 					expDoc, _ = groupByFile(doc)
+					expList = doc // filenames normalised in place by groupByFile
 				}
 				if isReplace && mode != engine.NOTHING {
 					per := map[string]engine.Matches{}
 					for _, m := range ms {
-						per[m.Filename] = append(per[m.Filename], m)
+						if m.Replacement.HasValue() { // the matches of the (last) replace command
+							per[m.Filename] = append(per[m.Filename], m)
+						}
 					}
 					for i, f := range expFiles {
 						T := splice(before[f], per[absFiles[i]])
@@ -548,6 +561,67 @@ func (c *c18) Run(ctx *RunCtx) *RunResult {
 				gb, _ := json.Marshal(got)
 				eb, _ := json.Marshal(expDoc)
 				addV("json-document", what+"-differs-from-library", fmt.Sprintf("%s: %s differs from the library result as a document:\n got  %s\n want %s", short, what, trunc(string(gb), 400), trunc(string(eb), 400)))
+				return
+			}
+			// order: the document must be the list RunFiles returns for SOME order of the
+			// selected files (the sorted order first; the tool may legitimately use another)
+			if len(expFiles) > 1 || len(prog.Cmds) > 1 {
+				ctx.Count("document_order_compared", 1)
+				if reflect.DeepEqual(doc, expList) {
+					return
+				}
+				pre := filepath.Join(ctx.World, "p") // same length as root (".../w")
+				os.RemoveAll(pre)
+				for n, b := range before {
+					os.MkdirAll(filepath.Dir(filepath.Join(pre, n)), 0755)
+					os.WriteFile(filepath.Join(pre, n), b, 0644)
+				}
+				found := false
+				var perm func(k int, l []string)
+				tried := 0
+				perm = func(k int, l []string) {
+					if found || tried > 30 {
+						return
+					}
+					if k == len(l) {
+						tried++
+						files := make([]string, len(l))
+						for i, f := range l {
+							files[i] = filepath.Join(pre, f)
+						}
+						simrt.Reset(1, nil, 1)
+						simrt.Solo()
+						simrt.OpStart(20000000)
+						o, ms := doRunFiles(prog.whole, files, engine.NOTHING, "")
+						simrt.OpEnd()
+						simrt.Stop()
+						if o.Class != "ok" {
+							return
+						}
+						for i := range ms {
+							ms[i].Filename = root + strings.TrimPrefix(ms[i].Filename, pre)
+						}
+						b, _ := json.Marshal([]engine.Match(ms))
+						var want any
+						json.Unmarshal(b, &want)
+						groupByFile(want)
+						if reflect.DeepEqual(doc, want) {
+							found = true
+						}
+						return
+					}
+					for i := k; i < len(l); i++ {
+						l[k], l[i] = l[i], l[k]
+						perm(k+1, l)
+						l[k], l[i] = l[i], l[k]
+					}
+				}
+				perm(0, append([]string{}, expFiles...))
+				if !found {
+					gb, _ := json.Marshal(doc)
+					eb, _ := json.Marshal(expList)
+					addV("json-document", what+"-order-differs-from-library", fmt.Sprintf("%s: %s holds the library's matches, but not in the order RunFiles returns them for any order of the files %v:\n got  %s\n want (sorted file order) %s", short, what, expFiles, trunc(string(gb), 400), trunc(string(eb), 400)))
+				}
 			}
 		}
 		if nExp > 0 && !noOutput {
